@@ -327,6 +327,8 @@ int mon_digest(const mon_args_t *a) {
   for (int i = 0; i < n0; i++)
     if (!(sel0[i]->flags & OPF_OMP)) sel[n++] = sel0[i];
   if (!n) hx_die("no operations selected");
+  extern int GEN_AIM_BOOST;
+  GEN_AIM_BOOST = 1;
   for (long idx = a->from; idx < a->to; idx++) {
     rng_t r;
     mon_case_rng(&r, a, "digest", idx);
